@@ -10,7 +10,7 @@ import subprocess
 import sys
 import time
 
-VERIF = "/verif"
+VERIF = os.environ.get("VERIF_ROOT", "/verif")
 SPEC = VERIF + "/spec"
 WORK = VERIF + "/work"
 HARNESS = VERIF + "/harness"
